@@ -32,6 +32,7 @@ Verdict(r) ==
            ELSE IF r.obs.ord.panic THEN "crash"
            ELSE IF r.obs.ord.status = 2 THEN "rejected-as-malformed"
            ELSE IF ~perm THEN "not-a-permutation"
+           ELSE IF r.sel = "keysonly" THEN "ok"           \* (rows without identity: the permutation is what can be judged)
            ELSE IF \E i \in 1 .. Len(ids) : ids[i] = 0 THEN "unknown-row"
            ELSE IF ~sorted THEN "not-sorted"
            ELSE "ok"
